@@ -10,6 +10,10 @@ import (
 )
 
 func main() {
+	if len(os.Args) > 2 && os.Args[1] == "c12" {
+		c12Main(os.Args[2])
+		return
+	}
 	if len(os.Args) > 1 && os.Args[1] == "faults" {
 		faultsMain()
 		return
